@@ -175,6 +175,27 @@ pub fn templates() -> Vec<(String, Module)> {
             t(&format!("std-{f}-fresh-string-key-{tag}"), c, vec![("kf", kf)]);
         }
     }
+    // key functions returning a fresh object that is equal (by content) to the row's value
+    for f in ["min_by_key", "max_by_key", "sorted_by_key"] {
+        let mut c = strings.clone();
+        c.push(sg("r", call(&format!("std.{f}"), vec![C::Function("kf".into()), rv("t")])));
+        c.push(log2("r", rv("r")));
+        let kf = func(
+            &["key", "value"],
+            vec![
+                C::IfTrue(b(bin(BinOp::Equals, C::Len(b(rv("value"))), int(3))), b(C::Return(b(s("bbb"))))),
+                C::IfTrue(b(bin(BinOp::Equals, C::Len(b(rv("value"))), int(1))), b(C::Return(b(s("a"))))),
+                C::Return(b(s("cc"))),
+            ],
+        );
+        t(&format!("std-{f}-fresh-key-equal-to-value"), c, vec![("kf", kf)]);
+        // ... and fresh tables as keys (ordered by length), equal in content to nothing / to each other
+        let mut c = strings.clone();
+        c.push(sg("r", call(&format!("std.{f}"), vec![C::Function("kf".into()), rv("t")])));
+        c.push(log2("r", rv("r")));
+        let kf = func(&["key", "value"], vec![sv("k", C::CreateTable), C::Repeat { n: b(C::Len(b(rv("value")))), i: Some("i".into()), body: b(C::Append(b(rv("i")), b(rv("k")))) }, C::Return(b(rv("k")))]);
+        t(&format!("std-{f}-fresh-table-key"), c, vec![("kf", kf)]);
+    }
     for f in ["filter", "map", "any"] {
         let mut c = strings.clone();
         c.push(sg("r", call(&format!("std.{f}"), vec![C::Function("cb".into()), rv("t")])));
